@@ -36,6 +36,7 @@ import (
 	"github.com/evanw/esbuild/internal/linker"
 	"github.com/evanw/esbuild/internal/logger"
 	"github.com/evanw/esbuild/internal/resolver"
+	"github.com/evanw/esbuild/internal/verifhook"
 	"github.com/evanw/esbuild/internal/xxhash"
 )
 
@@ -1009,6 +1010,7 @@ func (ctx *internalContext) rebuild() rebuildState {
 
 	// If there's already an active build, just return that build's result
 	if build := ctx.activeBuild; build != nil {
+		verifBuildJoin(ctx, build)
 		ctx.mutex.Unlock()
 		build.waitGroup.Wait()
 		return build.state
@@ -1023,11 +1025,14 @@ func (ctx *internalContext) rebuild() rebuildState {
 	handler := ctx.handler
 	oldHashes := ctx.latestHashes
 	args.options.CancelFlag = &build.cancel
+	verifBuildBegin(ctx, build)
 	ctx.mutex.Unlock()
+	verifhook.Yield("rebuild_begin")
 
 	// Do the build without holding the mutex
 	var newHashes map[string]string
 	build.state, newHashes = rebuildImpl(args, oldHashes)
+	verifhook.Yield("rebuild_end")
 	if handler != nil {
 		handler.broadcastBuildResult(build.state.result, newHashes)
 	}
@@ -1038,6 +1043,7 @@ func (ctx *internalContext) rebuild() rebuildState {
 	// Store the recent build for the dev server
 	recentBuild := &build.state.result
 	ctx.mutex.Lock()
+	verifBuildEnd(ctx, build)
 	ctx.activeBuild = nil
 	ctx.recentBuild = recentBuild
 	ctx.latestHashes = newHashes
